@@ -175,11 +175,8 @@ func (c *XAConn) createOnceTxContext(ctx context.Context) bool {
 	return onceTx
 }
 
-func (c *XAConn) createNewTxOnExecIfNeed(ctx context.Context, f func() (types.ExecResult, error)) (types.ExecResult, error) {
-	var (
-		tx  driver.Tx
-		err error
-	)
+func (c *XAConn) createNewTxOnExecIfNeed(ctx context.Context, f func() (types.ExecResult, error)) (ret types.ExecResult, err error) {
+	var tx driver.Tx
 
 	defer func() {
 		recoverErr := recover()
@@ -190,6 +187,9 @@ func (c *XAConn) createNewTxOnExecIfNeed(ctx context.Context, f func() (types.Ex
 				if rollbackErr != nil {
 					log.Errorf("conn at rollback error:%v", rollbackErr)
 				}
+			}
+			if recoverErr != nil {
+				ret, err = nil, fmt.Errorf("xa connection proxy panic: %v", recoverErr)
 			}
 		}
 	}()
@@ -203,7 +203,7 @@ func (c *XAConn) createNewTxOnExecIfNeed(ctx context.Context, f func() (types.Ex
 	}
 
 	// execute SQL
-	ret, err := f()
+	ret, err = f()
 	if err != nil {
 		// XA End & Rollback
 		if rollbackErr := c.Rollback(ctx); rollbackErr != nil {
@@ -219,6 +219,8 @@ func (c *XAConn) createNewTxOnExecIfNeed(ctx context.Context, f func() (types.Ex
 			if err := c.Rollback(ctx); err != nil {
 				log.Errorf("xa connection proxy rollback failure xid:%s, err:%v", c.txCtx.XID, err)
 			}
+			// the branch did not reach the prepared state: the statement has failed
+			return nil, err
 		}
 	}
 
@@ -332,24 +334,26 @@ func (c *XAConn) Commit(ctx context.Context) error {
 	}
 
 	now := time.Now()
-	if c.end(ctx, xa.TMSuccess) != nil {
-		return c.commitErrorHandle(ctx)
+	if err := c.end(ctx, xa.TMSuccess); err != nil {
+		return c.commitErrorHandle(ctx, err)
 	}
 
-	if c.checkTimeout(ctx, now) != nil {
-		return c.commitErrorHandle(ctx)
+	if err := c.checkTimeout(ctx, now); err != nil {
+		return c.commitErrorHandle(ctx, err)
 	}
 
-	if c.xaResource.XAPrepare(ctx, c.xaBranchXid.String()) != nil {
-		return c.commitErrorHandle(ctx)
+	if err := c.xaResource.XAPrepare(ctx, c.xaBranchXid.String()); err != nil {
+		return c.commitErrorHandle(ctx, err)
 	}
 	return nil
 }
 
-func (c *XAConn) commitErrorHandle(ctx context.Context) error {
-	var err error
-	if err = c.XaRollback(ctx, c.xaBranchXid); err != nil {
-		err = fmt.Errorf("failed to report XA branch commit-failure xid:%s, err:%w", c.txCtx.XID, err)
+// commitErrorHandle rolls the branch back after a failure before a successful
+// prepare; the failure itself is always returned, whatever the rollback answers
+func (c *XAConn) commitErrorHandle(ctx context.Context, cause error) error {
+	err := fmt.Errorf("xa branch xid:%s failed before prepare and was rolled back: %w", c.txCtx.XID, cause)
+	if rollbackErr := c.XaRollback(ctx, c.xaBranchXid); rollbackErr != nil {
+		err = fmt.Errorf("failed to report XA branch commit-failure xid:%s, err:%v, cause:%w", c.txCtx.XID, rollbackErr, cause)
 	}
 	c.cleanXABranchContext()
 	return err
@@ -360,7 +364,8 @@ func (c *XAConn) ShouldBeHeld() bool {
 }
 
 func (c *XAConn) checkTimeout(ctx context.Context, now time.Time) error {
-	if now.Sub(c.branchRegisterTime) > xaConnTimeout {
+	// a zero timeout (XA not configured through InitXA) means no limit
+	if xaConnTimeout > 0 && now.Sub(c.branchRegisterTime) > xaConnTimeout {
 		c.XaRollback(ctx, c.xaBranchXid)
 		return fmt.Errorf("XA branch timeout error xid:%s", c.txCtx.XID)
 	}
